@@ -10,11 +10,15 @@
    patterns first (repo-patches/78-fix-P35-global-ignore-final.diff), [false] the code without it.
    [fixed_P36 = true] (argument f36) is Pattern::new dropping the last character, not the last byte
    (repo-patches/79-fix-P36-pattern-multibyte-last-char.diff).  The check derives all three switches from
-   the behaviour of the code on every run (vlib/c09.py probe_switches).
+   [fixed_P37 = true] (argument f37) is the code in which the walkers ask about a directory with
+   IgnoreRules::check_dir, so that a directory-only line (`build/`) ignores the directory itself
+   (repo-patches/87-fix-P37-dir-pattern-ignores-the-directory.diff); [false] the code without it.  The check
+   derives all four switches from the behaviour of the code on every run (vlib/c09.py probe_switches).
    Every walker theorem holds for EVERY matcher [gm]; the witnesses use [glob_matches]. *)
 From Coq Require Import List Bool NArith Permutation Lia.
-From XV Require Import Glob.Match Glob.Pattern Glob.Proofs Walker.Model Walker.Proofs Walker.Special Gen.CommonIgnore.
-(* (Glob/LastComponent.v, the proof about the matcher, is used through Walker/Special.v) *)
+From XV Require Import Glob.Match Glob.Pattern Glob.Proofs Walker.Model Walker.Proofs Walker.Special Walker.DirLine Gen.CommonIgnore.
+(* (Glob/LastComponent.v and Glob/DirComponent.v, the proofs about the matcher, are used through Walker/Special.v and
+   Walker/DirLine.v) *)
 Import ListNotations.
 Open Scope N_scope.
 
@@ -76,6 +80,29 @@ Definition ex5_ch : list (name * tree) :=
   [([46; 120; 118; 99; 105; 103; 110; 111; 114; 101], File);
    (s_donnees, Dir None [(s_e_acute, File); ([120; 46; 116; 120; 116], File)])].
 
+(* .xvcignore = "build/\n!*.keep\n" at the root, build/{x.keep, y.bin, sub/z.keep}, keep/build/q.keep   (finding P37) *)
+Definition s_build : bytes := [98; 117; 105; 108; 100].   (* 'build' *)
+Definition s_xkeep : bytes := [120; 46; 107; 101; 101; 112].   (* 'x.keep' *)
+Definition s_ybin : bytes := [121; 46; 98; 105; 110].   (* 'y.bin' *)
+Definition s_sub : bytes := [115; 117; 98].   (* 'sub' *)
+Definition s_zkeep : bytes := [122; 46; 107; 101; 101; 112].   (* 'z.keep' *)
+Definition s_keep : bytes := [107; 101; 101; 112].   (* 'keep' *)
+Definition s_qkeep : bytes := [113; 46; 107; 101; 101; 112].   (* 'q.keep' *)
+Definition s_ign : bytes := [46; 120; 118; 99; 105; 103; 110; 111; 114; 101].   (* '.xvcignore' *)
+Definition ex6_ign : option bytes := Some [98; 117; 105; 108; 100; 47; 10; 33; 42; 46; 107; 101; 101; 112; 10].   (* 'build/\n!*.keep\n' *)
+Definition ex6_ch : list (name * tree) :=
+  [(s_ign, File);
+   (s_build, Dir None [(s_xkeep, File); (s_ybin, File); (s_sub, Dir None [(s_zkeep, File)])]);
+   (s_keep, Dir None [(s_build, Dir None [(s_qkeep, File)])])].
+(* the same with the line "!build/" added: the directory itself is re-included *)
+Definition ex7_ign : option bytes := Some [98; 117; 105; 108; 100; 47; 10; 33; 42; 46; 107; 101; 101; 112; 10; 33; 98; 117; 105; 108; 100; 47; 10].   (* 'build/\n!*.keep\n!build/\n' *)
+(* the line in a nested file: keep/.xvcignore = "build/", root .xvcignore = "!*.keep" *)
+Definition ex8_ign : option bytes := Some [33; 42; 46; 107; 101; 101; 112; 10].   (* '!*.keep\n' *)
+Definition ex8_ch : list (name * tree) :=
+  [(s_ign, File);
+   (s_build, Dir None [(s_xkeep, File)]);
+   (s_keep, Dir (Some [98; 117; 105; 108; 100; 47; 10]) [(s_ign, File); (s_sub, Dir None [(s_build, Dir None [(s_qkeep, File)])])])].
+
 (* thread 0 takes every step (queue position k at its first pop), then both threads leave *)
 Definition sched_one (k : nat) : list (nat * nat) := (O, k) :: repeat (O, O) 40 ++ [(1%nat, O)].
 
@@ -130,108 +157,109 @@ Theorem applies_only_below pat dir s :
 Proof. exact (applies_local pat dir s). Qed.
 
 (* ---- 2. walk_parallel: every schedule, every number of threads ---------------------------------------------- *)
-(* [walk_deterministic gm fixed f35 globals ign ch] (Walker/Proofs.v): for every number of threads n >= 1 and
+(* [walk_deterministic gm fixed f35 f37 globals ign ch] (Walker/Proofs.v): for every number of threads n >= 1 and
    every schedule, if the run reaches a final configuration (all threads have left), its output is a
    permutation of spec_walk and has no duplicates. *)
 Definition C09_full : Prop :=
-  forall gm fixed f35 globals ign ch, wf_tree (Dir ign ch) = true -> walk_deterministic gm fixed f35 globals ign ch.
+  forall gm fixed f35 f37 globals ign ch, wf_tree (Dir ign ch) = true -> walk_deterministic gm fixed f35 f37 globals ign ch.
 
-Theorem par_walk_deterministic gm f35 globals ign ch :
-  wf_tree (Dir ign ch) = true -> walk_deterministic gm true f35 globals ign ch.
+Theorem par_walk_deterministic gm f35 f37 globals ign ch :
+  wf_tree (Dir ign ch) = true -> walk_deterministic gm true f35 f37 globals ign ch.
 Proof.
-  exact (fun Hwf => par_walk_deterministic_lemma gm true f35 globals ign ch Hwf (local_of_fixed gm true ign ch Hwf eq_refl)).
+  exact (fun Hwf => par_walk_deterministic_lemma gm true f35 f37 globals ign ch Hwf (local_of_fixed gm true f37 ign ch Hwf eq_refl)).
 Qed.
 
 (* the code as it is (no locality test): the same holds for every tree outside the known class *)
-Theorem par_walk_deterministic_outside_P17 gm fixed f35 globals ign ch :
-  wf_tree (Dir ign ch) = true -> known_P17 gm (Dir ign ch) = false -> walk_deterministic gm fixed f35 globals ign ch.
+Theorem par_walk_deterministic_outside_P17 gm fixed f35 f37 globals ign ch :
+  wf_tree (Dir ign ch) = true -> known_P17 gm f37 (Dir ign ch) = false -> walk_deterministic gm fixed f35 f37 globals ign ch.
 Proof.
-  exact (fun Hwf Hk => par_walk_deterministic_lemma gm fixed f35 globals ign ch Hwf (local_of_not_known gm fixed ign ch Hk)).
+  exact (fun Hwf Hk => par_walk_deterministic_lemma gm fixed f35 f37 globals ign ch Hwf (local_of_not_known gm fixed f37 ign ch Hk)).
 Qed.
 
 (* ... and fails inside it: two schedules of the same tree with different results *)
-Theorem par_walk_nondeterministic_refuted :
-  let c1 := par_walk glob_matches false false 2 common_ignore_patterns None ex1_ch (sched_one 0) in
-  let c2 := par_walk glob_matches false false 2 common_ignore_patterns None ex1_ch (sched_one 1) in
+Theorem par_walk_nondeterministic_refuted f37 :
+  let c1 := par_walk glob_matches false false f37 2 common_ignore_patterns None ex1_ch (sched_one 0) in
+  let c2 := par_walk glob_matches false false f37 2 common_ignore_patterns None ex1_ch (sched_one 1) in
   final c1 = true /\ final c2 = true /\ length (c_out c1) <> length (c_out c2) /\
-  length (c_out c2) <> length (spec_walk glob_matches false false common_ignore_patterns None ex1_ch).
-Proof. vm_compute. repeat split; discriminate. Qed.
+  length (c_out c2) <> length (spec_walk glob_matches false false f37 common_ignore_patterns None ex1_ch).
+Proof. destruct f37; vm_compute; repeat split; discriminate. Qed.
 
 Theorem C09_full_refuted_P17 : ~ C09_full.
 Proof.
   intros H.
-  destruct (H glob_matches false false common_ignore_patterns None ex1_ch eq_refl 2%nat (sched_one 1)) as [Hp _];
+  destruct (H glob_matches false false false common_ignore_patterns None ex1_ch eq_refl 2%nat (sched_one 1)) as [Hp _];
     [repeat constructor|vm_compute; reflexivity|].
   apply Permutation_length in Hp. vm_compute in Hp. discriminate Hp.
 Qed.
 
 (* ---- 3. walk_serial -------------------------------------------------------------------------------------------- *)
-Theorem serial_eq_spec gm f35 globals ign ch :
+Theorem serial_eq_spec gm f35 f37 globals ign ch :
   wf_tree (Dir ign ch) = true ->
-  exists out, serial_walk gm true f35 (S (dir_count (Dir ign ch))) globals ign ch = Some out /\
-              Permutation out (spec_walk gm true f35 globals ign ch) /\ NoDup out.
+  exists out, serial_walk gm true f35 f37 (S (dir_count (Dir ign ch))) globals ign ch = Some out /\
+              Permutation out (spec_walk gm true f35 f37 globals ign ch) /\ NoDup out.
 Proof.
-  exact (fun Hwf => serial_eq_spec_lemma gm true f35 globals ign ch Hwf (local_of_fixed gm true ign ch Hwf eq_refl)).
+  exact (fun Hwf => serial_eq_spec_lemma gm true f35 f37 globals ign ch Hwf (local_of_fixed gm true f37 ign ch Hwf eq_refl)).
 Qed.
 
-Theorem serial_eq_spec_outside_P17 gm fixed f35 globals ign ch :
-  wf_tree (Dir ign ch) = true -> known_P17 gm (Dir ign ch) = false ->
-  exists out, serial_walk gm fixed f35 (S (dir_count (Dir ign ch))) globals ign ch = Some out /\
-              Permutation out (spec_walk gm fixed f35 globals ign ch) /\ NoDup out.
+Theorem serial_eq_spec_outside_P17 gm fixed f35 f37 globals ign ch :
+  wf_tree (Dir ign ch) = true -> known_P17 gm f37 (Dir ign ch) = false ->
+  exists out, serial_walk gm fixed f35 f37 (S (dir_count (Dir ign ch))) globals ign ch = Some out /\
+              Permutation out (spec_walk gm fixed f35 f37 globals ign ch) /\ NoDup out.
 Proof.
-  exact (fun Hwf Hk => serial_eq_spec_lemma gm fixed f35 globals ign ch Hwf (local_of_not_known gm fixed ign ch Hk)).
+  exact (fun Hwf Hk => serial_eq_spec_lemma gm fixed f35 f37 globals ign ch Hwf (local_of_not_known gm fixed f37 ign ch Hk)).
 Qed.
 
-Theorem serial_ne_spec_refuted :
-  exists out, serial_walk glob_matches false false (S (dir_count (Dir None ex1_ch))) common_ignore_patterns None ex1_ch = Some out /\
-              length out <> length (spec_walk glob_matches false false common_ignore_patterns None ex1_ch).
-Proof. eexists. split; [vm_compute; reflexivity|vm_compute; discriminate]. Qed.
+Theorem serial_ne_spec_refuted f37 :
+  exists out, serial_walk glob_matches false false f37 (S (dir_count (Dir None ex1_ch))) common_ignore_patterns None ex1_ch = Some out /\
+              length out <> length (spec_walk glob_matches false false f37 common_ignore_patterns None ex1_ch).
+Proof. destruct f37; (eexists; split; [vm_compute; reflexivity|vm_compute; discriminate]). Qed.
 
 (* both walkers report the same set *)
-Theorem serial_eq_parallel gm f35 globals ign ch n sched out :
+Theorem serial_eq_parallel gm f35 f37 globals ign ch n sched out :
   wf_tree (Dir ign ch) = true -> (1 <= n)%nat ->
-  final (par_walk gm true f35 n globals ign ch sched) = true ->
-  serial_walk gm true f35 (S (dir_count (Dir ign ch))) globals ign ch = Some out ->
-  Permutation out (c_out (par_walk gm true f35 n globals ign ch sched)).
+  final (par_walk gm true f35 f37 n globals ign ch sched) = true ->
+  serial_walk gm true f35 f37 (S (dir_count (Dir ign ch))) globals ign ch = Some out ->
+  Permutation out (c_out (par_walk gm true f35 f37 n globals ign ch sched)).
 Proof.
   intros Hwf Hn Hf Hs.
-  destruct (serial_eq_spec_lemma gm true f35 globals ign ch Hwf (local_of_fixed gm true ign ch Hwf eq_refl)) as (out' & E & Hp & _).
+  destruct (serial_eq_spec_lemma gm true f35 f37 globals ign ch Hwf (local_of_fixed gm true f37 ign ch Hwf eq_refl)) as (out' & E & Hp & _).
   rewrite Hs in E. injection E as <-.
-  destruct (par_walk_deterministic_lemma gm true f35 globals ign ch Hwf (local_of_fixed gm true ign ch Hwf eq_refl) n sched Hn Hf) as [Hp' _].
+  destruct (par_walk_deterministic_lemma gm true f35 f37 globals ign ch Hwf (local_of_fixed gm true f37 ign ch Hwf eq_refl) n sched Hn Hf) as [Hp' _].
   exact (Permutation_trans Hp (Permutation_sym Hp')).
 Qed.
 
 (* ---- 4. an ignored directory hides everything beneath it ------------------------------------------------------ *)
 (* every reported path, and every directory on the way to it, is "not ignored" under the rules of its own
-   ancestors (RB q): nothing below a directory that those rules ignore is ever reported *)
-Theorem ignored_dir_hides_subtree gm fixed f35 globals ign ch x p n r :
-  wf_tree (Dir ign ch) = true -> In x (spec_walk gm fixed f35 globals ign ch) -> x = p ++ n :: r ->
-  is_ignore (check gm fixed f35 (RB globals ign ch (p ++ [n])) (p ++ [n])) = false.
-Proof. exact (fun Hwf => ignored_dir_hides_subtree_lemma gm fixed f35 globals ign ch Hwf x p n r). Qed.
+   ancestors (RB q), asked the way the walkers ask ([kind_at]: as a directory when it is one): nothing below a
+   directory that those rules ignore is ever reported.  Section 8 says which directories a `dir/` line ignores. *)
+Theorem ignored_dir_hides_subtree gm fixed f35 f37 globals ign ch x p n r :
+  wf_tree (Dir ign ch) = true -> In x (spec_walk gm fixed f35 f37 globals ign ch) -> x = p ++ n :: r ->
+  is_ignore (check gm fixed f35 f37 (RB globals ign ch (p ++ [n])) (p ++ [n]) (kind_at (Dir ign ch) (p ++ [n]))) = false.
+Proof. exact (fun Hwf => ignored_dir_hides_subtree_lemma gm fixed f35 f37 globals ign ch Hwf x p n r). Qed.
 
-Theorem par_ignored_dir_hides_subtree gm f35 globals ign ch nth sched x p n r :
+Theorem par_ignored_dir_hides_subtree gm f35 f37 globals ign ch nth sched x p n r :
   wf_tree (Dir ign ch) = true -> (1 <= nth)%nat ->
-  final (par_walk gm true f35 nth globals ign ch sched) = true ->
-  In x (c_out (par_walk gm true f35 nth globals ign ch sched)) -> x = p ++ n :: r ->
-  is_ignore (check gm true f35 (RB globals ign ch (p ++ [n])) (p ++ [n])) = false.
+  final (par_walk gm true f35 f37 nth globals ign ch sched) = true ->
+  In x (c_out (par_walk gm true f35 f37 nth globals ign ch sched)) -> x = p ++ n :: r ->
+  is_ignore (check gm true f35 f37 (RB globals ign ch (p ++ [n])) (p ++ [n]) (kind_at (Dir ign ch) (p ++ [n]))) = false.
 Proof.
-  exact (fun Hwf Hn => par_ignored_dir_hides_subtree_lemma gm true f35 globals ign ch nth sched x p n r Hwf
-                         (local_of_fixed gm true ign ch Hwf eq_refl) Hn).
+  exact (fun Hwf Hn => par_ignored_dir_hides_subtree_lemma gm true f35 f37 globals ign ch nth sched x p n r Hwf
+                         (local_of_fixed gm true f37 ign ch Hwf eq_refl) Hn).
 Qed.
 
 (* ---- 5. .xvc and .git (COMMON_IGNORE_PATTERNS as regenerated into Gen/CommonIgnore.v) ------------------ *)
 (* Full statement: no reported path has a component .xvc or .git -- every tree, every ignore file. *)
 Definition C09_never_enters_full (f35 : bool) : Prop :=
-  forall fixed ign ch x p n r, wf_tree (Dir ign ch) = true ->
-    In x (spec_walk glob_matches fixed f35 common_ignore_patterns ign ch) -> x = p ++ n :: r -> is_special n = false.
+  forall fixed f37 ign ch x p n r, wf_tree (Dir ign ch) = true ->
+    In x (spec_walk glob_matches fixed f35 f37 common_ignore_patterns ign ch) -> x = p ++ n :: r -> is_special n = false.
 
 (* [fixed_P35 = false], the code without the repair: refuted by a whitelist line.  The root line "!.git"
    re-includes a/.git (whitelist patterns are consulted before ignore patterns, and the built-in ones are
    ordinary ignore patterns) -- finding P35 *)
 Theorem never_enters_xvc_git_refuted : ~ C09_never_enters_full false.
 Proof.
-  intros H. assert (E := H true ex3_ign ex3_ch [s_a; s_git] [s_a] s_git [] eq_refl).
-  assert (Hin : In [s_a; s_git] (spec_walk glob_matches true false common_ignore_patterns ex3_ign ex3_ch)) by (vm_compute; tauto).
+  intros H. assert (E := H true false ex3_ign ex3_ch [s_a; s_git] [s_a] s_git [] eq_refl).
+  assert (Hin : In [s_a; s_git] (spec_walk glob_matches true false false common_ignore_patterns ex3_ign ex3_ch)) by (vm_compute; tauto).
   specialize (E Hin eq_refl). vm_compute in E. discriminate E.
 Qed.
 
@@ -244,72 +272,72 @@ Proof. exact glob_matches_finds_last_component. Qed.
 (* [fixed_P35 = true], the repair (IgnoreRules::check consults the global ignore patterns first and their
    verdict is final): the full statement, no class excluded, for the reference walk ... *)
 Theorem never_enters_xvc_git_fixed : C09_never_enters_full true.
-Proof. exact (fun fixed ign ch x p n r _ => never_enters_xvc_git_fixed_lemma fixed ign ch x p n r). Qed.
+Proof. exact (fun fixed f37 ign ch x p n r _ => never_enters_xvc_git_fixed_lemma fixed f37 ign ch x p n r). Qed.
 
 (* ... and for every run of walk_parallel (any schedule, any thread count) *)
-Theorem par_never_enters_xvc_git_fixed ign ch nth sched x p n r :
+Theorem par_never_enters_xvc_git_fixed f37 ign ch nth sched x p n r :
   wf_tree (Dir ign ch) = true -> (1 <= nth)%nat ->
-  final (par_walk glob_matches true true nth common_ignore_patterns ign ch sched) = true ->
-  In x (c_out (par_walk glob_matches true true nth common_ignore_patterns ign ch sched)) -> x = p ++ n :: r -> is_special n = false.
+  final (par_walk glob_matches true true f37 nth common_ignore_patterns ign ch sched) = true ->
+  In x (c_out (par_walk glob_matches true true f37 nth common_ignore_patterns ign ch sched)) -> x = p ++ n :: r -> is_special n = false.
 Proof.
-  exact (fun Hwf Hn => par_never_enters_xvc_git_fixed_lemma true ign ch nth sched x p n r Hwf
-                         (local_of_fixed glob_matches true ign ch Hwf eq_refl) Hn).
+  exact (fun Hwf Hn => par_never_enters_xvc_git_fixed_lemma true f37 ign ch nth sched x p n r Hwf
+                         (local_of_fixed glob_matches true f37 ign ch Hwf eq_refl) Hn).
 Qed.
 
 (* the known class of P35 is empty when the repair is in: the check suppresses nothing then *)
-Theorem whitelist_class_empty_when_fixed fixed ign ch : whitelists_special glob_matches fixed true ign ch = false.
-Proof. exact (whitelist_class_empty_lemma glob_matches fixed ign ch glob_matches_finds_last_component). Qed.
+Theorem whitelist_class_empty_when_fixed fixed f37 ign ch : whitelists_special glob_matches fixed true f37 ign ch = false.
+Proof. exact (whitelist_class_empty_lemma glob_matches fixed f37 ign ch glob_matches_finds_last_component). Qed.
 
 (* For every setting of the switch: outside the known class [whitelists_special] (boolean). *)
-Theorem never_enters_xvc_git fixed f35 ign ch x p n r :
-  whitelists_special glob_matches fixed f35 ign ch = false ->
-  In x (spec_walk glob_matches fixed f35 common_ignore_patterns ign ch) -> x = p ++ n :: r -> is_special n = false.
-Proof. exact (never_enters_xvc_git_glob_lemma fixed f35 ign ch x p n r). Qed.
+Theorem never_enters_xvc_git fixed f35 f37 ign ch x p n r :
+  whitelists_special glob_matches fixed f35 f37 ign ch = false ->
+  In x (spec_walk glob_matches fixed f35 f37 common_ignore_patterns ign ch) -> x = p ++ n :: r -> is_special n = false.
+Proof. exact (never_enters_xvc_git_glob_lemma fixed f35 f37 ign ch x p n r). Qed.
 
-Theorem par_never_enters_xvc_git f35 ign ch nth sched x p n r :
+Theorem par_never_enters_xvc_git f35 f37 ign ch nth sched x p n r :
   wf_tree (Dir ign ch) = true -> (1 <= nth)%nat ->
-  whitelists_special glob_matches true f35 ign ch = false ->
-  final (par_walk glob_matches true f35 nth common_ignore_patterns ign ch sched) = true ->
-  In x (c_out (par_walk glob_matches true f35 nth common_ignore_patterns ign ch sched)) -> x = p ++ n :: r -> is_special n = false.
+  whitelists_special glob_matches true f35 f37 ign ch = false ->
+  final (par_walk glob_matches true f35 f37 nth common_ignore_patterns ign ch sched) = true ->
+  In x (c_out (par_walk glob_matches true f35 f37 nth common_ignore_patterns ign ch sched)) -> x = p ++ n :: r -> is_special n = false.
 Proof.
-  exact (fun Hwf Hn => par_never_enters_xvc_git_glob_lemma true f35 ign ch nth sched x p n r Hwf
-                         (local_of_fixed glob_matches true ign ch Hwf eq_refl) Hn).
+  exact (fun Hwf Hn => par_never_enters_xvc_git_glob_lemma true f35 f37 ign ch nth sched x p n r Hwf
+                         (local_of_fixed glob_matches true f37 ign ch Hwf eq_refl) Hn).
 Qed.
 
 (* the same for any other matcher that finds a last component *)
-Theorem never_enters_xvc_git_any_matcher gm fixed f35 ign ch x p n r :
-  matcher_finds_last_component gm -> whitelists_special gm fixed f35 ign ch = false ->
-  In x (spec_walk gm fixed f35 common_ignore_patterns ign ch) -> x = p ++ n :: r -> is_special n = false.
-Proof. exact (never_enters_xvc_git_lemma gm fixed f35 ign ch x p n r). Qed.
+Theorem never_enters_xvc_git_any_matcher gm fixed f35 f37 ign ch x p n r :
+  matcher_finds_last_component gm -> whitelists_special gm fixed f35 f37 ign ch = false ->
+  In x (spec_walk gm fixed f35 f37 common_ignore_patterns ign ch) -> x = p ++ n :: r -> is_special n = false.
+Proof. exact (never_enters_xvc_git_lemma gm fixed f35 f37 ign ch x p n r). Qed.
 
 (* ---- 6. the queue discipline terminates ------------------------------------------------------------------------ *)
 (* [mu c] bounds the number of steps any schedule can take from c; a non-final configuration always has
    an enabled thread; so every run that keeps scheduling enabled threads reaches a final configuration,
    and a run that cannot be continued is final. *)
-Theorem par_walk_steps_bounded gm fixed f35 c sched : (steps gm fixed f35 c sched <= mu c)%nat.
-Proof. exact (steps_bounded gm fixed f35 sched c). Qed.
+Theorem par_walk_steps_bounded gm fixed f35 f37 c sched : (steps gm fixed f35 f37 c sched <= mu c)%nat.
+Proof. exact (steps_bounded gm fixed f35 f37 sched c). Qed.
 
-Theorem par_walk_progress gm fixed f35 c : final c = false -> exists i, par_step gm fixed f35 c i O <> None.
-Proof. exact (progress gm fixed f35 c). Qed.
+Theorem par_walk_progress gm fixed f35 f37 c : final c = false -> exists i, par_step gm fixed f35 f37 c i O <> None.
+Proof. exact (progress gm fixed f35 f37 c). Qed.
 
-Theorem par_walk_terminates gm fixed f35 c :
-  exists sched, final (par_run gm fixed f35 c sched) = true /\ (length sched <= mu c)%nat.
-Proof. exact (terminates_lemma gm fixed f35 (mu c) c (le_n _)). Qed.
+Theorem par_walk_terminates gm fixed f35 f37 c :
+  exists sched, final (par_run gm fixed f35 f37 c sched) = true /\ (length sched <= mu c)%nat.
+Proof. exact (terminates_lemma gm fixed f35 f37 (mu c) c (le_n _)). Qed.
 
-Theorem par_walk_stuck_is_final gm fixed f35 c : (forall i k, par_step gm fixed f35 c i k = None) -> final c = true.
-Proof. exact (stuck_final gm fixed f35 c). Qed.
+Theorem par_walk_stuck_is_final gm fixed f35 f37 c : (forall i k, par_step gm fixed f35 f37 c i k = None) -> final c = true.
+Proof. exact (stuck_final gm fixed f35 f37 c). Qed.
 
 (* ---- 7. no walk dies on a line of an ignore file (finding P36) ---------------------------------------------- *)
 (* [walk_panics]: the walk reads an ignore file (of a directory the reference walk enters) or a global line on
    which Pattern::new panics.  Full statement: never. *)
 Definition C09_no_panic (f36 : bool) : Prop :=
-  forall gm fixed f35 globals ign ch, walk_panics gm fixed f35 f36 globals ign ch = false.
+  forall gm fixed f35 f37 globals ign ch, walk_panics gm fixed f35 f37 f36 globals ign ch = false.
 
 (* [fixed_P36 = false]: `line[..line.len() - 1]` is not on a character boundary when the line ends in a
    multi-byte character -- the root line "donn\u00e9es/\u00e9" *)
 Theorem walk_panics_refuted : ~ C09_no_panic false.
 Proof.
-  intros H. assert (E := H glob_matches true true common_ignore_patterns ex5_ign ex5_ch). vm_compute in E. discriminate E.
+  intros H. assert (E := H glob_matches true true true common_ignore_patterns ex5_ign ex5_ch). vm_compute in E. discriminate E.
 Qed.
 
 (* [fixed_P36 = true] (the last CHARACTER is dropped): the full statement *)
@@ -318,64 +346,152 @@ Proof. exact walk_panics_fixed. Qed.
 
 (* for every setting of the switch: outside the boolean class [known_P36] (some ignore file of the tree has a
    rule line that ends in a multi-byte character), which is empty when the repair is in *)
-Theorem walk_no_panic_outside_P36 gm fixed f35 f36 globals ign ch :
-  known_P36 f36 globals (Dir ign ch) = false -> walk_panics gm fixed f35 f36 globals ign ch = false.
-Proof. exact (walk_panics_outside gm fixed f35 f36 globals ign ch). Qed.
+Theorem walk_no_panic_outside_P36 gm fixed f35 f37 f36 globals ign ch :
+  known_P36 f36 globals (Dir ign ch) = false -> walk_panics gm fixed f35 f37 f36 globals ign ch = false.
+Proof. exact (walk_panics_outside gm fixed f35 f37 f36 globals ign ch). Qed.
 
 Theorem P36_class_empty_when_fixed globals t : known_P36 true globals t = false.
 Proof. exact (known_P36_fixed globals t). Qed.
+
+(* ---- 8. a directory line hides the directory it names (finding P37) ------------------------------------------- *)
+(* Reference meaning of a line "<name>/" (Walker/DirLine.v, executable): [simple_name] -- plain bytes, no glob
+   metacharacter, no separator, not a comment or a negation; [named_dir T D] -- the ignore file of a PROPER ANCESTOR
+   of D (any of them: the root's or a nested one's, by locality) has the line "<last component of D>/".
+   [dir_leak] (boolean): the walk reports a path strictly below a directory D that such a line names and that no
+   whitelist line matches ([check ... D true] is not Whitelist).  Full statement: never, for every tree, every
+   placement of ignore files, every global text, whatever whitelist lines say about the descendants of D. *)
+Definition C09_dir_full (f37 : bool) : Prop :=
+  forall fixed f35 globals ign ch, wf_tree (Dir ign ch) = true -> dir_leak glob_matches fixed f35 f37 globals ign ch = false.
+
+(* [fixed_P37 = false], the walkers ask about a directory as about a file: the glob of "build/" is "**/build/**",
+   which matches what is below build but not /build itself; build is entered and "!*.keep" re-includes build/x.keep *)
+Theorem dir_pattern_hides_subtree_refuted : ~ C09_dir_full false.
+Proof. intros H. assert (E := H true true common_ignore_patterns ex6_ign ex6_ch eq_refl). vm_compute in E. discriminate E. Qed.
+
+(* the fact about the transliterated fast-glob matcher that the repair relies on: "**/<name>/**" matches every
+   string that ends in "/<name>/" (Glob/DirComponent.v: the name is tried against every component in turn, the
+   trailing globstar swallows whatever follows the first hit; within the default fuel) *)
+Theorem matcher_finds_dir_lines : matcher_finds_dir glob_matches.
+Proof. exact glob_matches_finds_dir. Qed.
+
+(* [fixed_P37 = true] (IgnoreRules::check_dir): the full statement, no class excluded *)
+Theorem dir_pattern_hides_subtree_fixed : C09_dir_full true.
+Proof. exact (fun fixed f35 globals ign ch Hwf => dir_leak_false_when_fixed glob_matches fixed f35 globals ign ch Hwf glob_matches_finds_dir). Qed.
+
+(* the same, spelled out: the reference walk ... *)
+Theorem dir_pattern_hides_subtree fixed f35 globals ign ch D x m r :
+  wf_tree (Dir ign ch) = true -> named_dir (Dir ign ch) D = true ->
+  is_white (check glob_matches fixed f35 true (RB globals ign ch D) D true) = false ->
+  In x (spec_walk glob_matches fixed f35 true globals ign ch) -> x <> D ++ m :: r.
+Proof. exact (fun Hwf Hn Hw Hin Ex => named_dir_hides glob_matches fixed f35 globals ign ch Hwf glob_matches_finds_dir D x m r Hn Hw Hin Ex). Qed.
+
+(* ... walk_serial ... *)
+Theorem serial_dir_pattern_hides_subtree f35 globals ign ch D out x m r :
+  wf_tree (Dir ign ch) = true -> named_dir (Dir ign ch) D = true ->
+  is_white (check glob_matches true f35 true (RB globals ign ch D) D true) = false ->
+  serial_walk glob_matches true f35 true (S (dir_count (Dir ign ch))) globals ign ch = Some out ->
+  In x out -> x <> D ++ m :: r.
+Proof. exact (fun Hwf Hn Hw Hs Hin Ex => serial_named_dir_hides glob_matches f35 globals ign ch D out x m r Hwf glob_matches_finds_dir Hn Hw Hs Hin Ex). Qed.
+
+(* ... and every run of walk_parallel (any schedule, any thread count) *)
+Theorem par_dir_pattern_hides_subtree f35 globals ign ch D nth sched x m r :
+  wf_tree (Dir ign ch) = true -> (1 <= nth)%nat -> named_dir (Dir ign ch) D = true ->
+  is_white (check glob_matches true f35 true (RB globals ign ch D) D true) = false ->
+  final (par_walk glob_matches true f35 true nth globals ign ch sched) = true ->
+  In x (c_out (par_walk glob_matches true f35 true nth globals ign ch sched)) -> x <> D ++ m :: r.
+Proof. exact (fun Hwf Hnth Hn Hw Hf Hin Ex => par_named_dir_hides glob_matches f35 globals ign ch D nth sched x m r Hwf glob_matches_finds_dir Hnth Hn Hw Hf Hin Ex). Qed.
+
+(* with the line given explicitly: the ignore file of F has the line "<n>/", D = F/.../n lies anywhere below F *)
+Theorem dir_line_hides_subtree fixed f35 globals ign ch F content chF mid n x m r :
+  wf_tree (Dir ign ch) = true -> node_at (Dir ign ch) F = Some (Dir (Some content) chF) ->
+  In (n ++ [c_slash]) (lines content) -> simple_name n = true ->
+  is_white (check glob_matches fixed f35 true (RB globals ign ch (F ++ mid ++ [n])) (F ++ mid ++ [n]) true) = false ->
+  In x (spec_walk glob_matches fixed f35 true globals ign ch) -> x <> (F ++ mid ++ [n]) ++ m :: r.
+Proof.
+  exact (fun Hwf HF Hl Hs Hw Hin Ex => dir_line_hides glob_matches fixed f35 globals ign ch Hwf glob_matches_finds_dir F content chF mid n x m r HF Hl Hs Hw Hin Ex).
+Qed.
+
+(* the same for any other matcher that finds a directory *)
+Theorem dir_pattern_hides_subtree_any_matcher gm fixed f35 globals ign ch D x m r :
+  matcher_finds_dir gm -> wf_tree (Dir ign ch) = true -> named_dir (Dir ign ch) D = true ->
+  is_white (check gm fixed f35 true (RB globals ign ch D) D true) = false ->
+  In x (spec_walk gm fixed f35 true globals ign ch) -> x <> D ++ m :: r.
+Proof. exact (fun Hgm Hwf Hn Hw Hin Ex => named_dir_hides gm fixed f35 globals ign ch Hwf Hgm D x m r Hn Hw Hin Ex). Qed.
+
+(* the known class of P37 is empty when the repair is in: the check suppresses nothing then *)
+Theorem dir_class_empty_when_fixed fixed f35 globals ign ch :
+  wf_tree (Dir ign ch) = true -> dir_leak glob_matches fixed f35 true globals ign ch = false.
+Proof. exact (fun Hwf => dir_leak_false_when_fixed glob_matches fixed f35 globals ign ch Hwf glob_matches_finds_dir). Qed.
+
+(* for every setting of the switch: outside the boolean class [dir_leak] *)
+Theorem dir_pattern_hides_subtree_outside_P37 gm fixed f35 f37 globals ign ch D x m r :
+  dir_leak gm fixed f35 f37 globals ign ch = false -> named_dir (Dir ign ch) D = true ->
+  is_white (check gm fixed f35 f37 (RB globals ign ch D) D true) = false ->
+  In x (spec_walk gm fixed f35 f37 globals ign ch) -> x <> D ++ m :: r.
+Proof. exact (fun Hl Hn Hw Hin Ex => dir_leak_outside gm fixed f35 f37 globals ign ch D x m r Hl Hn Hw Hin Ex). Qed.
 
 (* ---- the statements are pinned ------------------------------------------------------------------------------------ *)
 Check pattern_local : forall gm pat D ign q,
   In pat (dir_patterns D ign) -> D <> [] -> forallb good_name D = true -> q <> [] -> forallb good_name q = true ->
   pat_hits gm true (render q) pat = true -> exists r, q = D ++ r /\ r <> [].
-Check par_walk_deterministic : forall gm f35 globals ign ch, wf_tree (Dir ign ch) = true ->
+Check par_walk_deterministic : forall gm f35 f37 globals ign ch, wf_tree (Dir ign ch) = true ->
   forall n sched, (1 <= n)%nat ->
-    let c := par_walk gm true f35 n globals ign ch sched in
-    final c = true -> Permutation (c_out c) (spec_walk gm true f35 globals ign ch) /\ NoDup (c_out c).
-Check par_walk_deterministic_outside_P17 : forall gm fixed f35 globals ign ch, wf_tree (Dir ign ch) = true ->
-  known_P17 gm (Dir ign ch) = false ->
+    let c := par_walk gm true f35 f37 n globals ign ch sched in
+    final c = true -> Permutation (c_out c) (spec_walk gm true f35 f37 globals ign ch) /\ NoDup (c_out c).
+Check par_walk_deterministic_outside_P17 : forall gm fixed f35 f37 globals ign ch, wf_tree (Dir ign ch) = true ->
+  known_P17 gm f37 (Dir ign ch) = false ->
   forall n sched, (1 <= n)%nat ->
-    let c := par_walk gm fixed f35 n globals ign ch sched in
-    final c = true -> Permutation (c_out c) (spec_walk gm fixed f35 globals ign ch) /\ NoDup (c_out c).
-Check serial_eq_spec : forall gm f35 globals ign ch, wf_tree (Dir ign ch) = true ->
-  exists out, serial_walk gm true f35 (S (dir_count (Dir ign ch))) globals ign ch = Some out /\
-              Permutation out (spec_walk gm true f35 globals ign ch) /\ NoDup out.
-Check never_enters_xvc_git : forall fixed f35 ign ch x p n r,
-  whitelists_special glob_matches fixed f35 ign ch = false ->
-  In x (spec_walk glob_matches fixed f35 common_ignore_patterns ign ch) -> x = p ++ n :: r -> is_special n = false.
-Check never_enters_xvc_git_fixed : forall fixed ign ch x p n r, wf_tree (Dir ign ch) = true ->
-  In x (spec_walk glob_matches fixed true common_ignore_patterns ign ch) -> x = p ++ n :: r -> is_special n = false.
-Check whitelist_class_empty_when_fixed : forall fixed ign ch, whitelists_special glob_matches fixed true ign ch = false.
-Check walk_never_panics_fixed : forall gm fixed f35 globals ign ch, walk_panics gm fixed f35 true globals ign ch = false.
-Check par_walk_terminates : forall gm fixed f35 c,
-  exists sched, final (par_run gm fixed f35 c sched) = true /\ (length sched <= mu c)%nat.
+    let c := par_walk gm fixed f35 f37 n globals ign ch sched in
+    final c = true -> Permutation (c_out c) (spec_walk gm fixed f35 f37 globals ign ch) /\ NoDup (c_out c).
+Check serial_eq_spec : forall gm f35 f37 globals ign ch, wf_tree (Dir ign ch) = true ->
+  exists out, serial_walk gm true f35 f37 (S (dir_count (Dir ign ch))) globals ign ch = Some out /\
+              Permutation out (spec_walk gm true f35 f37 globals ign ch) /\ NoDup out.
+Check never_enters_xvc_git : forall fixed f35 f37 ign ch x p n r,
+  whitelists_special glob_matches fixed f35 f37 ign ch = false ->
+  In x (spec_walk glob_matches fixed f35 f37 common_ignore_patterns ign ch) -> x = p ++ n :: r -> is_special n = false.
+Check never_enters_xvc_git_fixed : forall fixed f37 ign ch x p n r, wf_tree (Dir ign ch) = true ->
+  In x (spec_walk glob_matches fixed true f37 common_ignore_patterns ign ch) -> x = p ++ n :: r -> is_special n = false.
+Check whitelist_class_empty_when_fixed : forall fixed f37 ign ch, whitelists_special glob_matches fixed true f37 ign ch = false.
+Check walk_never_panics_fixed : forall gm fixed f35 f37 globals ign ch, walk_panics gm fixed f35 f37 true globals ign ch = false.
+Check par_walk_terminates : forall gm fixed f35 f37 c,
+  exists sched, final (par_run gm fixed f35 f37 c sched) = true /\ (length sched <= mu c)%nat.
+Check dir_pattern_hides_subtree : forall fixed f35 globals ign ch D x m r,
+  wf_tree (Dir ign ch) = true -> named_dir (Dir ign ch) D = true ->
+  is_white (check glob_matches fixed f35 true (RB globals ign ch D) D true) = false ->
+  In x (spec_walk glob_matches fixed f35 true globals ign ch) -> x <> D ++ m :: r.
+Check par_dir_pattern_hides_subtree : forall f35 globals ign ch D nth sched x m r,
+  wf_tree (Dir ign ch) = true -> (1 <= nth)%nat -> named_dir (Dir ign ch) D = true ->
+  is_white (check glob_matches true f35 true (RB globals ign ch D) D true) = false ->
+  final (par_walk glob_matches true f35 true nth globals ign ch sched) = true ->
+  In x (c_out (par_walk glob_matches true f35 true nth globals ign ch sched)) -> x <> D ++ m :: r.
+Check dir_class_empty_when_fixed : forall fixed f35 globals ign ch,
+  wf_tree (Dir ign ch) = true -> dir_leak glob_matches fixed f35 true globals ign ch = false.
 
 (* ---- non-vacuity: the hypotheses are met by concrete, non-trivial trees ------------------------------------ *)
 (* ex1 (nested ignore file whose line names files of sibling directories) is well formed, lies in the
    known class, and with the fix both schedules end in a final configuration with the reference result *)
 Example ex1_wf : wf_tree (Dir None ex1_ch) = true.
 Proof. vm_compute. reflexivity. Qed.
-Example ex1_known : known_P17 glob_matches (Dir None ex1_ch) = true.
+Example ex1_known : known_P17 glob_matches true (Dir None ex1_ch) = true.
 Proof. vm_compute. reflexivity. Qed.
 Example ex1_fixed_runs :
-  let c1 := par_walk glob_matches true true 2 common_ignore_patterns None ex1_ch (sched_one 0) in
-  let c2 := par_walk glob_matches true true 2 common_ignore_patterns None ex1_ch (sched_one 1) in
+  let c1 := par_walk glob_matches true true true 2 common_ignore_patterns None ex1_ch (sched_one 0) in
+  let c2 := par_walk glob_matches true true true 2 common_ignore_patterns None ex1_ch (sched_one 1) in
   final c1 = true /\ final c2 = true /\ length (c_out c1) = 7%nat /\ length (c_out c2) = 7%nat /\
   In [s_a; s_foo] (c_out c1) /\ In [s_a; s_foo] (c_out c2) /\ ~ In [s_b; s_foo] (c_out c1) /\
-  length (spec_walk glob_matches true true common_ignore_patterns None ex1_ch) = 7%nat.
+  length (spec_walk glob_matches true true true common_ignore_patterns None ex1_ch) = 7%nat.
 Proof. vm_compute. repeat split; try tauto. intros H. repeat (destruct H as [H|H]; [discriminate|]). exact H. Qed.
 (* ex4: a nested ignore file with a line that hits only below its directory: outside the known class,
    also for the code without the fix, and the nested line does hide something *)
-Example ex4_outside : wf_tree (Dir None ex4_ch) = true /\ known_P17 glob_matches (Dir None ex4_ch) = false /\
-  ~ In [s_b; s_foo] (spec_walk glob_matches false false common_ignore_patterns None ex4_ch) /\
-  In [s_b] (spec_walk glob_matches false false common_ignore_patterns None ex4_ch).
+Example ex4_outside : wf_tree (Dir None ex4_ch) = true /\ known_P17 glob_matches true (Dir None ex4_ch) = false /\
+  ~ In [s_b; s_foo] (spec_walk glob_matches false false true common_ignore_patterns None ex4_ch) /\
+  In [s_b] (spec_walk glob_matches false false true common_ignore_patterns None ex4_ch).
 Proof. vm_compute. repeat split; try tauto. intros H. repeat (destruct H as [H|H]; [discriminate|]). exact H. Qed.
 (* an ignored directory: .xvc of ex3 is ignored by its ancestors' rules, and nothing below it is reported *)
 Example ex3_ignored_dir :
-  is_ignore (check glob_matches true true (RB common_ignore_patterns ex3_ign ex3_ch [s_xvc]) [s_xvc]) = true /\
+  is_ignore (check glob_matches true true true (RB common_ignore_patterns ex3_ign ex3_ch [s_xvc]) [s_xvc] true) = true /\
   forallb (fun x => match x with n :: _ => negb (bytes_eqb n s_xvc) | [] => true end)
-          (spec_walk glob_matches true true common_ignore_patterns ex3_ign ex3_ch) = true.
+          (spec_walk glob_matches true true true common_ignore_patterns ex3_ign ex3_ch) = true.
 Proof. vm_compute. split; reflexivity. Qed.
 (* [matcher_finds_xvc_git], evaluated: "**/.xvc" and "**/.git" match the last component at depths 1..4
    (also next to look-alike names) *)
@@ -385,16 +501,16 @@ Example matcher_sample :
           [[]; [s_a]; [s_a; s_b]; [s_a; s_b; s_c]; [s_xvc; s_a]; [[46; 120; 118; 99; 105]; s_git; s_a; s_foo]; [s_a_1_]] = true.
 Proof. vm_compute. reflexivity. Qed.
 (* known class of the second finding: ex3 is inside, ex1 outside (and ex1 reports no special name) *)
-Example ex3_whitelists : whitelists_special glob_matches true false ex3_ign ex3_ch = true.
+Example ex3_whitelists : whitelists_special glob_matches true false true ex3_ign ex3_ch = true.
 Proof. vm_compute. reflexivity. Qed.
-Example ex1_no_whitelist : whitelists_special glob_matches true false None ex1_ch = false /\ whitelists_special glob_matches false false None ex1_ch = false.
+Example ex1_no_whitelist : whitelists_special glob_matches true false true None ex1_ch = false /\ whitelists_special glob_matches false false true None ex1_ch = false.
 Proof. vm_compute. split; reflexivity. Qed.
 (* with the repair of P35 the tree of the refutation reports neither a/.git nor .xvc, and still reports the rest
    (the whitelist line keeps working for everything that is not excluded by the program itself) *)
 Example ex3_fixed :
-  whitelists_special glob_matches true true ex3_ign ex3_ch = false /\
-  spec_walk glob_matches true true common_ignore_patterns ex3_ign ex3_ch = [[[46; 120; 118; 99; 105; 103; 110; 111; 114; 101]]; [s_a]; [s_a; [117; 46; 116; 120; 116]]] /\
-  In [s_a; s_git; s_head] (spec_walk glob_matches true false common_ignore_patterns ex3_ign ex3_ch).
+  whitelists_special glob_matches true true true ex3_ign ex3_ch = false /\
+  spec_walk glob_matches true true true common_ignore_patterns ex3_ign ex3_ch = [[[46; 120; 118; 99; 105; 103; 110; 111; 114; 101]]; [s_a]; [s_a; [117; 46; 116; 120; 116]]] /\
+  In [s_a; s_git; s_head] (spec_walk glob_matches true false true common_ignore_patterns ex3_ign ex3_ch).
 Proof. vm_compute. repeat split; tauto. Qed.
 (* P36: ex5 is in the known class without the repair and outside it with the repair; the pattern the repaired
    Pattern::new builds for the line is the one the model computes on bytes, and it hides donn\u00e9es/\u00e9 only *)
@@ -404,7 +520,7 @@ Example ex5_class : wf_tree (Dir ex5_ign ex5_ch) = true /\
 Proof. vm_compute. repeat split; reflexivity. Qed.
 Example ex5_fixed_walk :
   p_glob (pattern_new (SFile []) l_donnees_e) = [c_slash; c_star; c_star; c_slash] ++ l_donnees_e /\
-  spec_walk glob_matches true true common_ignore_patterns ex5_ign ex5_ch
+  spec_walk glob_matches true true true common_ignore_patterns ex5_ign ex5_ch
   = [[[46; 120; 118; 99; 105; 103; 110; 111; 114; 101]]; [s_donnees]; [s_donnees; [120; 46; 116; 120; 116]]].
 Proof. vm_compute. split; reflexivity. Qed.
 (* the matcher works on bytes, as fast-glob does: '?' and a class consume ONE byte, so "?" does not match the
@@ -420,8 +536,67 @@ Example trim_end_unicode :
   trim_end [97; 194; 160; 32; 227; 128; 128; 9] = [97] /\ trim_end (s_e_acute ++ [226; 128; 137]) = s_e_acute /\
   trim_end [97; 195; 160] = [97; 195; 160] /\ all_ws [194; 133; 32] = true /\ all_ws [195; 133] = false.
 Proof. vm_compute. repeat split; reflexivity. Qed.
+(* P37: ex6 (root lines "build/" and "!*.keep").  The line names build and keep/build, no whitelist line matches
+   them; without the repair the tree is in the class (build/x.keep and keep/build/q.keep are reported), with the
+   repair nothing below either directory is reported -- by the reference walk, by walk_serial and by two schedules of
+   walk_parallel -- and everything else still is *)
+Example ex6_named : wf_tree (Dir ex6_ign ex6_ch) = true /\
+  named_dir (Dir ex6_ign ex6_ch) [s_build] = true /\ named_dir (Dir ex6_ign ex6_ch) [s_keep; s_build] = true /\
+  named_dir (Dir ex6_ign ex6_ch) [s_keep] = false /\ named_dir (Dir ex6_ign ex6_ch) [s_build; s_sub] = false /\
+  is_white (check glob_matches true true true (RB common_ignore_patterns ex6_ign ex6_ch [s_build]) [s_build] true) = false /\
+  is_white (check glob_matches true true true (RB common_ignore_patterns ex6_ign ex6_ch [s_keep; s_build]) [s_keep; s_build] true) = false.
+Proof. vm_compute. repeat split; reflexivity. Qed.
+Example ex6_unfixed : dir_leak glob_matches true true false common_ignore_patterns ex6_ign ex6_ch = true /\
+  In [s_build; s_xkeep] (spec_walk glob_matches true true false common_ignore_patterns ex6_ign ex6_ch) /\
+  In [s_keep; s_build; s_qkeep] (spec_walk glob_matches true true false common_ignore_patterns ex6_ign ex6_ch) /\
+  ~ In [s_build; s_ybin] (spec_walk glob_matches true true false common_ignore_patterns ex6_ign ex6_ch) /\
+  check glob_matches true true false (RB common_ignore_patterns ex6_ign ex6_ch [s_build]) [s_build] true = NoMatch.
+Proof. vm_compute. repeat split; try tauto. intros H. repeat (destruct H as [H|H]; [discriminate|]). exact H. Qed.
+Example ex6_fixed : dir_leak glob_matches true true true common_ignore_patterns ex6_ign ex6_ch = false /\
+  spec_walk glob_matches true true true common_ignore_patterns ex6_ign ex6_ch = [[s_ign]; [s_keep]] /\
+  serial_walk glob_matches true true true (S (dir_count (Dir ex6_ign ex6_ch))) common_ignore_patterns ex6_ign ex6_ch = Some [[s_ign]; [s_keep]] /\
+  (let c := par_walk glob_matches true true true 2 common_ignore_patterns ex6_ign ex6_ch (sched_one 0) in final c = true /\ c_out c = [[s_ign]; [s_keep]]) /\
+  (let c := par_walk glob_matches true true true 2 common_ignore_patterns ex6_ign ex6_ch (sched_one 1) in final c = true /\ c_out c = [[s_ign]; [s_keep]]) /\
+  check glob_matches true true true (RB common_ignore_patterns ex6_ign ex6_ch [s_build]) [s_build] true = Ignore /\
+  check glob_matches true true true (RB common_ignore_patterns ex6_ign ex6_ch [s_build]) [s_build] false = NoMatch.
+Proof. vm_compute. repeat split; reflexivity. Qed.
+(* ex7: the whitelist line "!build/" matches the directory itself: the hypothesis "not whitelisted" fails, the
+   directory is entered and its children are judged one by one (the repair does not remove re-inclusion) *)
+Example ex7_whitelisted :
+  check glob_matches true true true (RB common_ignore_patterns ex7_ign ex6_ch [s_build]) [s_build] true = Whitelist /\
+  In [s_build] (spec_walk glob_matches true true true common_ignore_patterns ex7_ign ex6_ch) /\
+  In [s_build; s_xkeep] (spec_walk glob_matches true true true common_ignore_patterns ex7_ign ex6_ch) /\
+  dir_leak glob_matches true true true common_ignore_patterns ex7_ign ex6_ch = false.
+Proof. vm_compute. repeat split; tauto. Qed.
+(* ex8: the line stands in keep/.xvcignore: it names keep/sub/build (two levels below the file) and, by locality,
+   not the root's build; the root's "!*.keep" cannot re-include keep/sub/build/q.keep *)
+Example ex8_nested : wf_tree (Dir ex8_ign ex8_ch) = true /\
+  named_dir (Dir ex8_ign ex8_ch) [s_keep; s_sub; s_build] = true /\ named_dir (Dir ex8_ign ex8_ch) [s_build] = false /\
+  In [s_build; s_xkeep] (spec_walk glob_matches true true true common_ignore_patterns ex8_ign ex8_ch) /\
+  In [s_keep; s_sub] (spec_walk glob_matches true true true common_ignore_patterns ex8_ign ex8_ch) /\
+  ~ In [s_keep; s_sub; s_build] (spec_walk glob_matches true true true common_ignore_patterns ex8_ign ex8_ch) /\
+  ~ In [s_keep; s_sub; s_build; s_qkeep] (spec_walk glob_matches true true true common_ignore_patterns ex8_ign ex8_ch) /\
+  In [s_keep; s_sub; s_build; s_qkeep] (spec_walk glob_matches true true false common_ignore_patterns ex8_ign ex8_ch).
+Proof. vm_compute. repeat split; try tauto; intros H; repeat (destruct H as [H|H]; [discriminate|]); exact H. Qed.
+(* [matcher_finds_dir_lines], evaluated: "**/build/**" on /build/, deeper, after a look-alike and after an earlier
+   component of the same name; and it does not match the path without the final slash *)
+Example dir_matcher_sample :
+  forallb (fun p => glob_matches (dir_glob s_build) (render (p ++ [s_build]) ++ [c_slash]))
+          [[]; [s_a]; [s_a; s_b]; [s_build]; [s_build; s_a]; [[98; 117; 105; 108; 100; 120]; s_a]; [[98; 117; 105; 108]]] = true /\
+  glob_matches (dir_glob s_build) (render [s_build]) = false /\ simple_name s_build = true /\
+  simple_name [33; 97] = false /\ simple_name [97; 42] = false /\ simple_name [97; 47; 98] = false /\ simple_name [] = false.
+Proof. vm_compute. repeat split; reflexivity. Qed.
+(* the anchored forms of a directory line ("/build/", "keep/build/"), evaluated: Pattern::new gives them a glob
+   relative to the directory of the file, and check_dir finds the directory as well (the general theorem is for the
+   name-only form; these forms are covered by the correspondence check on every run) *)
+Example anchored_dir_lines :
+  p_glob (pattern_new (SFile []) [47; 98; 117; 105; 108; 100; 47]) = [c_slash; c_star; c_star; c_slash] ++ s_build ++ [c_slash; c_star; c_star] /\
+  glob_matches (p_glob (pattern_new (SFile []) [47; 98; 117; 105; 108; 100; 47])) (render [s_build] ++ [c_slash]) = true /\
+  glob_matches (p_glob (pattern_new (SFile s_keep) (s_sub ++ [c_slash] ++ s_build ++ [c_slash]))) (render [s_keep; s_sub; s_build] ++ [c_slash]) = true /\
+  glob_matches (p_glob (pattern_new (SFile s_keep) (s_sub ++ [c_slash] ++ s_build ++ [c_slash]))) (render [s_keep; s_sub; s_build]) = false.
+Proof. vm_compute. repeat split; reflexivity. Qed.
 (* termination: the bound for ex1 with two threads *)
-Example ex1_mu : mu (par_init glob_matches true true 2 common_ignore_patterns None ex1_ch) = 19%nat.
+Example ex1_mu : mu (par_init glob_matches true true true 2 common_ignore_patterns None ex1_ch) = 19%nat.
 Proof. vm_compute. reflexivity. Qed.
 
 Print Assumptions pattern_local.
@@ -454,3 +629,13 @@ Print Assumptions walk_panics_refuted.
 Print Assumptions walk_never_panics_fixed.
 Print Assumptions walk_no_panic_outside_P36.
 Print Assumptions P36_class_empty_when_fixed.
+Print Assumptions dir_pattern_hides_subtree_refuted.
+Print Assumptions matcher_finds_dir_lines.
+Print Assumptions dir_pattern_hides_subtree_fixed.
+Print Assumptions dir_pattern_hides_subtree.
+Print Assumptions serial_dir_pattern_hides_subtree.
+Print Assumptions par_dir_pattern_hides_subtree.
+Print Assumptions dir_line_hides_subtree.
+Print Assumptions dir_pattern_hides_subtree_any_matcher.
+Print Assumptions dir_class_empty_when_fixed.
+Print Assumptions dir_pattern_hides_subtree_outside_P37.
